@@ -19,8 +19,10 @@ import (
 	"github.com/lianxiangcloud/linkchain/types"
 )
 
-// addresses of the contracts the mixed block deploys (creator A, nonces 0..4)
+// addresses of the contracts the mixed block deploys (creator A, nonces 0..7)
 var (
+	multiInit                                          []byte         // contract with eight filled storage slots
+	multiAddr, sdAddr2, sdAddr3                        common.Address // ... and two more self-destructing contracts (other account-trie keys)
 	storeInit, revertInit, sdInit, logInit, issuerInit []byte
 	storeAddr, revertAddr, sdAddr, logAddr, issuerAddr common.Address
 	issuerInitB                                        []byte
@@ -38,6 +40,36 @@ func init() {
 	storeAddr, revertAddr = txkit.ContractAddress(A, 0, storeInit), txkit.ContractAddress(A, 1, revertInit)
 	sdAddr, logAddr = txkit.ContractAddress(A, 2, sdInit), txkit.ContractAddress(A, 3, logInit)
 	issuerAddr = txkit.ContractAddress(A, 4, issuerInit)
+	multiInit = multiSlotContract()
+	multiAddr = txkit.ContractAddress(A, 5, multiInit)
+	sdAddr2, sdAddr3 = txkit.ContractAddress(A, 6, sdInit), txkit.ContractAddress(A, 7, sdInit)
+}
+
+// multiSlotContract: the constructor fills storage slots 1..8 with 0x11..0x18. A call with calldata (k, k2, v) - three
+// 32-byte words - writes, for every slot i in 1..8, the value 0 if i == k or i == k2 (a CLEAR of a committed, non-empty
+// slot: TryDelete on the storage trie) and v otherwise (seven or six updates next to the deletes, in the order Go
+// iterates stateObject.dirtyStorage). Branch-free: value = iszero((i==k)|(i==k2)) * v.
+func multiSlotContract() []byte {
+	const (
+		opMUL, opEQ, opISZERO, opOR, opCALLDATALOAD, opSSTORE, opPUSH1, opSTOP = 0x02, 0x14, 0x15, 0x17, 0x35, 0x55, 0x60, 0x00
+	)
+	var prefix, rt []byte
+	for i := byte(1); i <= 8; i++ {
+		prefix = append(prefix, opPUSH1, 0x10+i, opPUSH1, i, opSSTORE)
+		rt = append(rt,
+			opPUSH1, i, opPUSH1, 0, opCALLDATALOAD, opEQ,
+			opPUSH1, i, opPUSH1, 32, opCALLDATALOAD, opEQ, opOR,
+			opISZERO,
+			opPUSH1, 64, opCALLDATALOAD, opMUL,
+			opPUSH1, i, opSSTORE)
+	}
+	rt = append(rt, opSTOP)
+	return txkit.Deploy(prefix, rt)
+}
+
+func clearData(k, k2 int64) []byte {
+	d := append(txkit.Word(big.NewInt(k)), txkit.Word(big.NewInt(k2))...)
+	return append(d, txkit.Word(big.NewInt(0x77))...)
 }
 
 func alloc() []minichain.Alloc { return txkit.AllocWithToken(nil, txkit.GenesisToken, tokenUnits) }
@@ -51,8 +83,8 @@ func validatorSigners(c *minichain.Chain) []txkit.ValidatorSigner {
 	return s
 }
 
-// mixedBlock is the block that leads from genesis to prior state 1: five contract creations (one with an endowment,
-// one that issues a token), a coin transfer, a token transfer, an account -> confidential transaction with three
+// mixedBlock is the block that leads from genesis to prior state 1: eight contract creations (three with an endowment,
+// one that issues a token, one that fills eight storage slots), a coin transfer, a token transfer, an account -> confidential transaction with three
 // outputs (two wallets, one sub-address) and the multi-signature account transaction that installs the signer table
 // contract upgrades need. C sends nothing (its nonce stays 0).
 func mixedBlock(c *minichain.Chain) types.Txs {
@@ -69,8 +101,11 @@ func mixedBlock(c *minichain.Chain) types.Txs {
 		txkit.Create(A, 2, sdInit, txkit.LKC(5)),
 		txkit.Create(A, 3, logInit, nil),
 		txkit.Create(A, 4, issuerInit, nil),
-		txkit.Transfer(A, 5, B.Addr, txkit.LKC(10)),
-		txkit.TokenTransfer(A, 6, txkit.GenesisToken, C.Addr, big.NewInt(12345)),
+		txkit.Create(A, 5, multiInit, nil),
+		txkit.Create(A, 6, sdInit, txkit.LKC(6)),
+		txkit.Create(A, 7, sdInit, txkit.LKC(7)),
+		txkit.Transfer(A, 8, B.Addr, txkit.LKC(10)),
+		txkit.TokenTransfer(A, 9, txkit.GenesisToken, C.Addr, big.NewInt(12345)),
 		ain,
 		mst,
 	}
@@ -95,11 +130,21 @@ func (x *bctx) next(a *txkit.Account) uint64 {
 type letter struct {
 	name  string
 	build func(x *bctx) (types.Tx, error)
+	// special letters (deletes next to other writes in one trie) are not part of the free alphabet: they appear alone and
+	// next to each partner letter, in both orders (their long update sequences make every block that holds them costly)
+	special bool
 }
 
 func plain(name string, f func(x *bctx) types.Tx) letter {
-	return letter{name, func(x *bctx) (types.Tx, error) { return f(x), nil }}
+	return letter{name: name, build: func(x *bctx) (types.Tx, error) { return f(x), nil }}
 }
+
+func special(name string, f func(x *bctx) types.Tx) letter {
+	return letter{name: name, build: func(x *bctx) (types.Tx, error) { return f(x), nil }, special: true}
+}
+
+// partners of the special letters
+var partnerNames = []string{"transfer(A->B,10)", "call(B,selfdestruct->D)", "call(A,store,42)"}
 
 // letters shared by both prior states
 func commonLetters() []letter {
@@ -111,12 +156,12 @@ func commonLetters() []letter {
 		plain("token(A->C,genesis-token)", func(x *bctx) types.Tx {
 			return txkit.TokenTransfer(A, x.next(A), txkit.GenesisToken, C.Addr, big.NewInt(777))
 		}),
-		letter{"A->U(C->W1,W2)", func(x *bctx) (types.Tx, error) {
+		letter{name: "A->U(C->W1,W2)", build: func(x *bctx) (types.Tx, error) {
 			return x.kit.AccountToUTXO(C, x.next(C), []txkit.Dest{txkit.ToWallet(txkit.W1, 1, txkit.LKC(70)), txkit.ToWallet(txkit.W2, 2, txkit.LKC(30))}, nil)
 		}},
 		// the same kind from an account whose nonce is > 0 in the second prior state (7) and, after any other letter of A,
 		// also at genesis
-		letter{"A->U(A->W0,W2)", func(x *bctx) (types.Tx, error) {
+		letter{name: "A->U(A->W0,W2)", build: func(x *bctx) (types.Tx, error) {
 			return x.kit.AccountToUTXO(A, x.next(A), []txkit.Dest{txkit.ToWallet(txkit.W0, 2, txkit.LKC(40)), txkit.ToWallet(txkit.W2, 0, txkit.LKC(60))}, nil)
 		}},
 		plain("multisign", func(x *bctx) types.Tx {
@@ -163,23 +208,37 @@ func lettersFor(st int) []letter {
 		plain("token(A->C,issued token)", func(x *bctx) types.Tx {
 			return txkit.TokenTransfer(A, x.next(A), issuerAddr, C.Addr, txkit.LKC(100))
 		}),
-		letter{"U->U(W0 out0 -> W2, ring 1)", func(x *bctx) (types.Tx, error) {
+		letter{name: "U->U(W0 out0 -> W2, ring 1)", build: func(x *bctx) (types.Tx, error) {
 			return x.kit.Transfer(x.w.led, txkit.W0, x.w.spendW0[:1], 1, []txkit.Dest{txkit.ToWallet(txkit.W2, 0, txkit.LKC(50))}, 2)
 		}},
-		letter{"U->U(W0 out1 -> W1, ring 3 MLSAG)", func(x *bctx) (types.Tx, error) {
+		letter{name: "U->U(W0 out1 -> W1, ring 3 MLSAG)", build: func(x *bctx) (types.Tx, error) {
 			return x.kit.Transfer(x.w.led, txkit.W0, x.w.spendW0[1:2], 3, []txkit.Dest{txkit.ToWallet(txkit.W1, 2, txkit.LKC(20))}, 0)
 		}},
-		letter{"U->U(W0 out0 -> W1)[double spend with the first U->U]", func(x *bctx) (types.Tx, error) {
+		letter{name: "U->U(W0 out0 -> W1)[double spend with the first U->U]", build: func(x *bctx) (types.Tx, error) {
 			return x.kit.Transfer(x.w.led, txkit.W0, x.w.spendW0[:1], 1, []txkit.Dest{txkit.ToWallet(txkit.W1, 0, txkit.LKC(1))}, 0)
 		}},
 		// account -> confidential in an issued TOKEN: amount in token units, fee in coin from the same account (nonce 7+)
-		letter{"A->U token(A->W1, issued token, fee from account)", func(x *bctx) (types.Tx, error) {
+		letter{name: "A->U token(A->W1, issued token, fee from account)", build: func(x *bctx) (types.Tx, error) {
 			return tokenAin(x, A, issuerAddr, txkit.LKC(30))
 		}},
-		letter{"U->A(W1 -> C)", func(x *bctx) (types.Tx, error) {
+		letter{name: "U->A(W1 -> C)", build: func(x *bctx) (types.Tx, error) {
 			tx, _, err := x.kit.ToAccountAll(x.w.led, txkit.W1, x.w.spendW1[:1], 1, C.Addr)
 			return tx, err
 		}},
+	)
+	// special letters: a delete next to other writes in ONE trie
+	for k := int64(1); k <= 8; k++ {
+		k := k
+		ls = append(ls, special(fmt.Sprintf("call(A,multi-slot: clear slot %d, rewrite the other 7)", k), func(x *bctx) types.Tx {
+			return txkit.Call(A, x.next(A), multiAddr, nil, clearData(k, 0))
+		}))
+	}
+	ls = append(ls,
+		special("call(A,multi-slot: clear slots 2 and 5, rewrite the other 6)", func(x *bctx) types.Tx {
+			return txkit.Call(A, x.next(A), multiAddr, nil, clearData(2, 5))
+		}),
+		special("call(B,selfdestruct#2->D)", func(x *bctx) types.Tx { return txkit.Call(B, x.next(B), sdAddr2, nil, txkit.AddrWord(D.Addr)) }),
+		special("call(C,selfdestruct#3->A)", func(x *bctx) types.Tx { return txkit.Call(C, x.next(C), sdAddr3, nil, txkit.AddrWord(A.Addr)) }),
 	)
 	return ls
 }
@@ -207,7 +266,11 @@ func blockCases(maxLen int) []blockCase {
 	var out []blockCase
 	var short []blockCase
 	for st := 0; st < numStates; st++ {
-		n := len(lettersFor(st))
+		ls := lettersFor(st)
+		n := 0 // the free alphabet: the non-special letters (they come first)
+		for n < len(ls) && !ls[n].special {
+			n++
+		}
 		// breadth-first by length so that indices of short blocks are stable across tiers
 		for L := 0; L <= maxLen; L++ {
 			var gen func(prefix []int)
@@ -225,6 +288,20 @@ func blockCases(maxLen int) []blockCase {
 				}
 			}
 			gen(nil)
+		}
+		// special letters: alone, and before / after each partner
+		for s := n; s < len(ls); s++ {
+			if !ls[s].special {
+				panic("special letters must come last")
+			}
+			out = append(out, blockCase{st: st, letters: []int{s}})
+			for _, pn := range partnerNames {
+				for p := 0; p < n; p++ {
+					if ls[p].name == pn {
+						out = append(out, blockCase{st: st, letters: []int{p, s}}, blockCase{st: st, letters: []int{s, p}})
+					}
+				}
+			}
 		}
 	}
 	for _, c := range short {
